@@ -165,7 +165,7 @@ def _sig(rnd, s):
 
 def render_verilog(mod, rnd):
     """One of many equivalent renderings; style choices come from rnd (recorded seed)."""
-    ws = lambda: rnd.choice([' ', '  ', '\n  ', '\t', ' /* c */ ', ' // line comment\n  '])
+    ws = lambda: rnd.choice([' ', '  ', '\n  ', '\t', ' /* c */ ', ' // line comment\n  ', ' /** doc **/ ', ' /***/ ', ' /* a * b */ '])
     out = []
     if rnd.random() < 0.3:
         out.append('// generated netlist\n/* block\n comment */\n')
@@ -199,7 +199,7 @@ def render_verilog(mod, rnd):
         conns = ['.%s(%s)' % (p, _sig(rnd, s)) for p, s in items]
         if rnd.random() < 0.15:
             conns.append('.%s()' % 'UNUSED' if False else conns.pop()) if False else None
-        attr = '(* keep *) ' if rnd.random() < 0.1 else ''
+        attr = rnd.choice(['(* keep *) ', '(* keep **) ', '(* a = "x", b *) ']) if rnd.random() < 0.12 else ''
         stm.append('%s%s %s (%s);' % (attr, kind, _ident(rnd, iname), (',' + ws()).join(conns)))
         tag[stm[-1]] = iname
     # assigns: bit by bit, or grouped per output bus as a concatenation / sized constant
